@@ -48,7 +48,6 @@ func VerifH_C10_status() {
 		vz.Assert(out.Status.State == execution.JobStateFinished, "C11/L1/state-matches-condition")
 	}
 	vz.Assert(out.Status.Phase.IsTerminal() == (cond.Finished != nil), "C11/L1/phase-terminal-iff-finished")
-	vz.Assert(!j.started == (cond.Queueing != nil) || j.admErr, "C11/L1/queueing-iff-not-started")
 
 	// ---- C10 ----
 	allS, anyS, allX, anyX := true, false, true, false
@@ -107,5 +106,33 @@ func VerifH_C10_status() {
 	if j.started && j.hasKill && !j.kill.After(j.now) && !j.admErr && j.liveRefs() == 0 {
 		vz.Assert(cond.Finished != nil && cond.Finished.Result == execution.JobResultKilled, "C12/killed-when-all-terminated")
 		vz.Cover("killed")
+	}
+}
+
+// VerifH_C11_L2_stable: a Job that was derived Finished at some instant stays
+// Finished with the same result and finish time when the status is derived
+// again later from the same task list (no user edit, no deletion).
+func VerifH_C11_L2_stable() {
+	j := verifDrawJobState(verifJobOpts{maxRefs: 2, parallel: 1, started: 1, allowKill: true, allowAdmErr: true, maxAttemptsHi: 2, concreteTimes: true})
+	first, err := UpdateJobStatusFromTaskRefs(j.rj)
+	vz.Assert(err == nil, "C11/L2/status-computable")
+	if first.Status.Condition.Finished == nil {
+		return
+	}
+	vz.Cover("was-finished")
+	later := vz.InstantNear("later")
+	vz.Assume(!later.Before(j.now))
+	verifClock(later)
+	second, err := UpdateJobStatusFromTaskRefs(first)
+	vz.Assert(err == nil, "C11/L2/status-computable")
+	f1, f2 := first.Status.Condition.Finished, second.Status.Condition.Finished
+	vz.Assert(f2 != nil, "C11/L2/finished-stays-finished")
+	if f2 != nil {
+		vz.Assert(f2.Result == f1.Result, "C11/L2/result-never-changes")
+		vz.Assert(f2.FinishTimestamp.Equal(&f1.FinishTimestamp), "C11/L2/finish-time-never-changes")
+		vz.Assert(second.Status.Phase == first.Status.Phase, "C11/L2/phase-never-changes")
+	}
+	if j.hasKill && j.kill.After(j.now) && !j.kill.After(later) {
+		vz.Cover("kill-time-passed-in-between")
 	}
 }
